@@ -84,6 +84,7 @@ type Exec struct {
 	unsupp    string
 	freshCnt  int
 	known     map[string]bool
+	mergeBase map[ssa.Value]Value
 }
 
 type ufApp struct {
